@@ -280,6 +280,8 @@ def rule_roll_closes_writer(ctx, p, cfg, rid="R3"):
                     if c.t.get("arg_tys") and slot_ty in c.t["arg_tys"][0]:
                         if path == ro["get_writer"].path and nm in ("insert", "get_or_insert_with", "get_or_insert"):
                             continue   # the opener filling the empty slot (`slot.insert(w)` is `*slot = Some(w)`)
+                        if path == ro["get_writer"].path and nm == "take" and _take_is_put_back(g, c, slot_ty):
+                            continue   # `match slot.take() { Some(w) => w, None => open()? }` .. `slot.insert(w)`: what was taken is put back
                         takers.append(path)
         r.require(not takers, "no-other-slot-mutators", detail="Option::take/replace on the writer slot: %s" % takers)
 
@@ -331,6 +333,28 @@ def _is_trigger_bool(discr):
     e = deep_strip(discr)
     return e[0] == "field" and any(x[0] == "call" and x[1] == TRIGGER for x in walk(e))
 
+
+
+def _take_is_put_back(g, tk, slot_ty):
+    """slot.take() in the opener: every return after it has passed slot.insert(..), except error returns on the arm where the
+    slot was empty to begin with (nothing was taken out)"""
+    ins = {c.block for c in g.calls("core::option::Option::<T>::insert") if c.t.get("arg_tys") and slot_ty in c.t["arg_tys"][0]}
+    if not ins:
+        return False
+    sw = None
+    for blk in g.blocks:
+        if blk["term"]["k"] == "switch" and blk["id"] in g.reachable_blocks():
+            si = SwitchInfo(g, blk["id"])
+            d = strip(si.discr)
+            if d[0] == "discr" and strip(d[1])[0] == "call" and len(strip(d[1])) > 3 and strip(d[1])[3] == tk.block:
+                sw = si
+    if sw is None or sw.target_of("Some") is None:
+        return False
+    rets = set(g.return_blocks())
+    if q.skipping_paths(g, sw.target_of("Some"), ins, rets):
+        return False        # a writer taken out of the slot can be dropped
+    oks = set(q.ok_exit_blocks(g))
+    return not q.skipping_paths(g, tk.block, ins, oks)
 
 def rule_reopen(ctx, p, cfg, rid="R5"):
     with ctx.rule(rid, "get_writer reopens the active path iff closed", cfg) as r:
@@ -388,9 +412,16 @@ def rule_reopen(ctx, p, cfg, rid="R5"):
         r.require(len(stores) == 1 and stores[0][1][0] == "agg" and stores[0][1][2] == "Some", "stores-some", fn=g, detail="slot assignments: %s" % [show(e, 3) for _, e in stores])
         if stores:
             sb = stores[0][0]
-            r.require(g.dominates(op.block, sb), "store-after-open", fn=g, detail="the slot is filled from the opened file")
             e = stores[0][1]
             inner = dict(e[3]).get("0")
+            alts = [deep_strip(a_) for a_ in (deep_strip(inner)[1] if inner and deep_strip(inner)[0] == "phi" else ((inner,) if inner else ()))]
+            put_back = [a_ for a_ in alts if any(x[0] == "call" and x[1] == "core::option::Option::<T>::take" and any(y == ("param", 2) for y in walk(x)) for x in walk(a_))]
+            fresh = [a_ for a_ in alts if a_ not in put_back]
+            # the store sits behind the open, or at the join of "opened just now" and "was open already" (the writer taken out of
+            # the slot and put back)
+            r.require(g.dominates(op.block, sb) or (g.can_reach(op.block, sb) and bool(put_back) and len(fresh) == 1), "store-after-open", fn=g, detail="the slot is filled from the opened file")
+            if len(fresh) == 1 and put_back:
+                inner = fresh[0]
             if inner and inner[0] == "agg":
                 fe = dict(inner[3]).get(ro["file_field"])
                 r.require(fe is not None and any(x[0] == "call" and x[1] == OPEN for x in walk(fe)), "writer-wraps-opened-file", fn=g,
